@@ -190,6 +190,7 @@ def check(ctx):
             ctx.check(not moved and bool(drops) and w is None, "C07.d", "register_reactors:handle-only-lent-then-dropped", rr.loc(pc[0]),
                       "the prepared handle is only borrowed and is dropped on every path",
                       "register_reactors moves or keeps the prepared handle (an empty or all-dead bundle would leave a clone alive)")
+    handle_linearity(ctx, prog)
     import c01
     n_tr = 0
     for im in c01.trigger_impls(prog):
@@ -426,3 +427,70 @@ def on_component_missing_arm(R, b):
                 if R.dominates(fail_t, b):
                     return True
     return False
+
+
+def handle_linearity(ctx, prog):
+    """C07.h: a function that receives a ReactorHandle by value (directly or inside its In<(..)> input) stores or forwards it
+    on every path; the only excused paths are those through the failure arm of a fallible entity/component lookup (the
+    target is gone: dropping the handle is the release). A handle that is silently dropped on a normal path is a
+    registration that never happens."""
+    n = 0
+    for body in prog.bodies:
+        if body.kind not in ("fn", "assoc_fn") or not body.file.startswith("src/react/"):
+            continue
+        params = []
+        for i in range(1, body.arg_count + 1):
+            ty = body.local_ty(i)
+            if ty.endswith("::ReactorHandle") and not ty.startswith("&"):
+                params.append(i)
+            elif "ReactorHandle" in ty and not ty.startswith("&") and ("In<(" in ty or ty.startswith("(")):
+                params.append(i)
+        if not params:
+            continue
+        fk = lib.fkey(body)
+        # blocks that move the handle (or a local it was moved into) into a call argument / aggregate / field
+        carriers = set()
+        for i in params:
+            carriers.add(i)
+        grew = True
+        while grew:
+            grew = False
+            for b, i, st in body.iter_stmts():
+                if st["k"] == "assign" and not st["place"]["p"] and "use" in st["rv"]:
+                    p = op_place(st["rv"]["use"])
+                    if p is not None and p["l"] in carriers and "ReactorHandle" in body.local_ty(st["place"]["l"]) and st["place"]["l"] not in carriers:
+                        carriers.add(st["place"]["l"])
+                        grew = True
+        sinks = []
+        for b, t, fr in body.iter_calls():
+            for a in t["args"]:
+                p = op_place(a)
+                if p is not None and "move" in a and p["l"] in carriers and "ReactorHandle" in lib.place_type(body, p):
+                    nm = lib.tail(mir.fn_name(fr), 2) if fr else "?"
+                    if nm not in ("mem::drop",):
+                        sinks.append(b)
+        for b, i, st in body.iter_stmts():
+            if st["k"] == "assign" and "agg" in st["rv"] and st["rv"]["agg"]["kind"] in ("adt", "tuple", "closure"):
+                for a in st["rv"]["agg"]["ops"]:
+                    p = op_place(a)
+                    if p is not None and "move" in a and p["l"] in carriers and "ReactorHandle" in lib.place_type(body, p):
+                        # the aggregate must itself be stored / passed on: accept when its local is later moved into a call
+                        sinks.append(b)
+            if st["k"] == "assign" and st["place"]["p"] and "use" in st["rv"]:
+                p = op_place(st["rv"]["use"])
+                if p is not None and "move" in st["rv"]["use"] and p["l"] in carriers and lib.field_of(st["place"]):
+                    sinks.append(b)
+        excuse = []
+        for b, t, fr in body.iter_calls():
+            # only a lookup of the entity itself says "the target is gone"; a failed component query does not
+            if fr and lib.tail(mir.fn_name(fr), 2) in ("Commands::get_entity", "World::get_entity", "World::get_entity_mut", "Entities::contains"):
+                for (sb, ok_t, fail_t) in lib.result_arms(body, b):
+                    excuse.append(fail_t)
+        n += 1
+        ctx.touch(body)
+        w = lib.path_to_return_avoiding(body, [0], set(sinks) | set(excuse))
+        ctx.check(bool(sinks) and w is None, "C07.h", "%s:handle-stored-or-forwarded-on-every-path" % fk, "%s:%d" % (body.file, body.line),
+                  "the received ReactorHandle is stored or passed on on every path (excused: failed entity lookups)",
+                  "a path of %s drops the ReactorHandle it received without storing it (the registration silently does not happen)" % fk,
+                  lib.render_path(body, w) if w else None)
+    ctx.floor("C07.h", n, 8, "functions receiving a ReactorHandle by value")
